@@ -24,7 +24,7 @@ RULE = ("seeded operation sequences (one derived PRNG value per case) over every
         "get_current/get_history/get_last_history, compute_logw_and_logz, compute_results, to_dict, from_dict, update_from_dict, save_state/load_state through SimFS) and over "
         "Sampler.sample()/results()/posterior()/state.to_dict() on live short runs, plus scribble(handle); after each operation all stored data are compared bitwise with a reference "
         "store; evaluations = operations executed; distinct = distinct (accessor, scribbled) pairs and operation bigrams; non-trivial = the example scribbled on at least one handle")
-ASSUMPTIONS = ["arrays passed with copy=False and arrays passed into from_dict/update_from_dict are donated, hence never scribbled", "histories whose batches differ in size (as after a resume with another n_particles) are included; an accessor that cannot stack them may refuse with ValueError, what it returns otherwise is judged like any other result"]
+ASSUMPTIONS = ["arrays passed with copy=False and arrays passed into from_dict/update_from_dict are donated, hence never scribbled; arrays passed with copy=True (also read-only ones, thawed later) stay the caller's and are scribbled", "histories whose batches differ in size (as after a resume with another n_particles) are included; an accessor that cannot stack them may refuse with ValueError, what it returns otherwise is judged like any other result"]
 
 N, D = 3, 2
 ARR_KEYS = ("u", "x", "logl", "blobs", "assignments")
@@ -147,17 +147,28 @@ class Exec:
         if name != "scribble":
             self.pairs.add((self.ops[-2][0] if len(self.ops) > 1 else "-", name))
 
-    def op_set(self, key, vseed, cp):
+    def _give(self, accessor, v, cp, frozen):
+        """An array the caller passes in with copy=True stays the caller's: it may be overwritten (or, if it was passed read-only, made writable
+        again and overwritten) later without any effect on the state.  It is kept as a handle for later scribbles."""
+        if isinstance(v, np.ndarray):
+            if frozen:
+                v.setflags(write=False)
+            if cp:
+                self._hand("input:" + accessor, v)
+
+    def op_set(self, key, vseed, cp, frozen=False):
         v = make_value(key, vseed)
-        self.sm.set_current(key, v, copy=cp)
         self.cur[key] = copy.deepcopy(v)
+        self._give("set_current", v, cp, frozen)
+        self.sm.set_current(key, v, copy=cp)
         self.last_scribbled = None
 
-    def op_update(self, keys, vseed, cp):
+    def op_update(self, keys, vseed, cp, frozen=False):
         d = {k: make_value(k, vseed + i) for i, k in enumerate(keys)}
-        self.sm.update_current(d, copy=cp)
         for k, v in d.items():
             self.cur[k] = copy.deepcopy(v)
+            self._give("update_current", v, cp, frozen)
+        self.sm.update_current(d, copy=cp)
         self.last_scribbled = None
 
     def op_update_n(self, vseed, n):
@@ -342,8 +353,13 @@ class Exec:
         if not self.handles:
             return
         acc, path, a = self.handles[idx % len(self.handles)]
-        if not a.flags.writeable or a.size == 0:
+        if a.size == 0:
             return
+        if not a.flags.writeable:
+            try:
+                a.setflags(write=True)  # legal for an array that owns its data (or whose base is writable): "read-only" is a flag, not a guarantee
+            except ValueError:
+                return
         if mode == 0:
             a[...] = 12345 if a.dtype.kind in "iu" else np.nan if a.dtype.kind == "f" else a
         elif mode == 1:
@@ -444,9 +460,9 @@ def gen_ops(rnd, mode, n_ops):
     ]
     if mode == "sm":
         writers = [
-            lambda: ["set", rnd.choice(ALL_KEYS), rnd.randrange(10**6), rnd.random() < 0.5],
-            lambda: ["update", rnd.sample(ALL_KEYS, rnd.randrange(1, 7)), rnd.randrange(10**6), rnd.random() < 0.5],
-            lambda: ["update", list(ALL_KEYS), rnd.randrange(10**6), True],
+            lambda: ["set", rnd.choice(ALL_KEYS), rnd.randrange(10**6), rnd.random() < 0.5, rnd.random() < 0.25],
+            lambda: ["update", rnd.sample(ALL_KEYS, rnd.randrange(1, 7)), rnd.randrange(10**6), rnd.random() < 0.5, rnd.random() < 0.25],
+            lambda: ["update", list(ALL_KEYS), rnd.randrange(10**6), True, rnd.random() < 0.25],
             lambda: ["commit", False],
             lambda: ["commit", rnd.random() < 0.5],
             lambda: ["update_n", rnd.randrange(10**6), rnd.choice([2, 5])],
